@@ -5,6 +5,7 @@ package main
 // (never by the code under test); real node -> the node state record of spec/LeanHelix.tla.
 
 import (
+	"os"
 	"fmt"
 	"sort"
 
@@ -170,7 +171,13 @@ func (cl *cluster) msgAbs(raw *interfaces.ConsensusRawMessage) (out obj) {
 			"v": absNum(uint64(hd.View())), "vm": cl.vmod(hd.BlockHeight(), hd.View()), "s": cl.nameOf(c.Sender().MemberId()), "sig": cl.sigOK(hd.BlockHeight(), hd.Raw(), c.Sender()), "blk": blk}
 		votes := []obj{}
 		it := hd.ViewChangeConfirmationsIterator()
-		for it.HasNext() {
+		for guard := 0; it.HasNext(); guard++ {
+			if guard > 4096 { // an iterator that does not advance (malformed array): not a message
+				if os.Getenv("VERIF_DUMP_LOOP") != "" {
+					fmt.Fprintf(os.Stderr, "ITERATOR LOOP in NEW_VIEW votes: %x\n", raw.Content)
+				}
+				return obj{"k": "BAD"}
+			}
 			votes = append(votes, cl.voteAbs(it.NextViewChangeConfirmations()))
 		}
 		o["votes"] = votes
@@ -182,8 +189,9 @@ func (cl *cluster) msgAbs(raw *interfaces.ConsensusRawMessage) (out obj) {
 		o["okfor"] = cl.okFor(pp.SignedHeader().BlockHeight(), raw.Block, pp.SignedHeader().BlockHash())
 		canon := canonRef(pp.SignedHeader())
 		it2 := hd.ViewChangeConfirmationsIterator()
-		for it2.HasNext() {
-			canon = canon && canonVote(it2.NextViewChangeConfirmations())
+		for guard := 0; it2.HasNext() && guard <= 4096; guard++ {
+			c := canonVote(it2.NextViewChangeConfirmations()) // always advance (first version: "canon && canonVote(next)" stopped advancing once canon was false)
+			canon = canon && c
 		}
 		o["canon"] = canon
 		return o
